@@ -21,6 +21,9 @@ doctor_plan, doctor, doctor_apply and the read APIs):
               value), is a constant, or the subtraction is dominated by a w <= len edge. A window that is doubled
               without the clamp exceeds the file length on files that are not a power-of-two multiple of the start
               size, and the subtraction underflows.
+  MUL-C22e    an integer decoded from the file (from_le_bytes) is multiplied only through checked_mul / saturating_mul, or
+              where a comparison bounding that integer from above dominates the product. A plain `count * 16` panics on
+              overflow in debug builds and, wrapped, can satisfy a length comparison and size an allocation in release.
 Not decided: panic-freedom of index/arithmetic sites in general, termination."""
 from . import lib
 from .facts import Place, op_place
@@ -187,6 +190,38 @@ def run(ctx):
                 ctx.bad('SUB-C22c', f, 'unsigned subtraction of a file-derived value (%s) that is not bounded by the minuend on this path: a crafted field underflows (panic in debug, '
                         'wrapped offset and out-of-range slice in release)' % src, line=st.get('l'), sink='Sub', detail='unguarded-sub:' + (','.join(sorted(x for o, x in flds)) or 'from_le_bytes'))
     ctx.floor('SUB-C22c', n_sub, 3, 'unsigned subtractions with a file-derived subtrahend')
+    # ---- multiplications
+    ctx.rule('MUL-C22e', 'a multiplication of an integer decoded from the file (from_le_bytes) is checked (checked_mul/saturating_mul) or dominated by an upper bound on that integer')
+    n_mul = 0
+    for f in sorted(reach.values(), key=lambda x: x.path):
+        if f.r.get('derive'):
+            continue
+        for bb, i, st in f.stmts():
+            rv = st['rv']
+            if rv['k'] != 'bin' or rv['op'] not in ('Mul', 'MulWithOverflow'):
+                continue
+            for side in ('a', 'b'):
+                if 'k' in rv[side]:
+                    continue
+                pl = op_place(rv[side])
+                if pl is None or f.local_ty(pl.l) not in ('u64', 'usize', 'u32'):
+                    continue
+                sx = lib.slice_back(f, [rv[side]], through_calls=True, at=(bb, i))
+                fromle = [c for c in sx.calls if c.name in ('from_le_bytes', 'from_be_bytes')]
+                if not fromle or any(c.name in ('min', 'clamp') for c in sx.calls):
+                    continue
+                n_mul += 1
+                ctx.evaluations += 1
+                why = None
+                for cm, rel in lib.guards_holding_at(f, bb):
+                    for x, y, r in ((cm.sa(), cm.sb(), rel), (cm.sb(), cm.sa(), lib.FLIP[rel])):
+                        if any(c in x.calls for c in fromle) and not any(c in y.calls for c in fromle) and r in ('<=', '<', '=='):
+                            why = 'bounded at line %s' % cm.line
+                if why:
+                    ctx.ok('MUL-C22e', f, 'product of a file-decoded integer: %s' % why, line=st.get('l'))
+                else:
+                    ctx.bad('MUL-C22e', f, 'an integer decoded from the file is multiplied without an overflow check or an upper bound on its path: a crafted count overflows (panic in debug; '
+                            'in release the wrapped product can pass the length comparison and size an allocation)', line=st.get('l'), sink='Mul', detail='unchecked-mul-of-file-integer')
     # ---- len - loop-carried window
     ctx.rule('SUB-C22d', 'len - w with a loop-carried w: every definition of w is clamped with min() / constant, or w <= len is established')
     n_w = 0
